@@ -1130,6 +1130,15 @@ VARIANTS += [
 ]
 
 
+# positional PRF key (audit of name-based matches)
+VARIANTS += [
+    dict(prop="C01", name="prf-key-renamed", benign=True,
+         edits=[dict(file='ipa-core/src/protocol/hybrid/oprf.rs', find='    .try_collect::<Vec<_>>()\n    .await?;\n\n    let prf_key = gen_prf_key(&ctx.narrow(&HybridStep::PrfKeyGen));\n\n    let validator = ctx\n        .narrow(&HybridStep::EvalPrf)\n', replace='    .try_collect::<Vec<_>>()\n    .await?;\n\n    let k0 = gen_prf_key(&ctx.narrow(&HybridStep::PrfKeyGen));\n\n    let validator = ctx\n        .narrow(&HybridStep::EvalPrf)\n'), dict(file='ipa-core/src/protocol/hybrid/oprf.rs', find='        stream::iter(curve_pts).enumerate().map(|(i, curve_pts)| {\n            let record_id = RecordId::from(i);\n            let eval_ctx = eval_ctx.clone();\n            let prf_key = &prf_key;\n            curve_pts\n                .then(move |pts| eval_dy_prf::<_, PRF_CHUNK>(eval_ctx, record_id, prf_key, pts))\n        }),\n    )\n    .try_flatten_iters();\n', replace='        stream::iter(curve_pts).enumerate().map(|(i, curve_pts)| {\n            let record_id = RecordId::from(i);\n            let eval_ctx = eval_ctx.clone();\n            let kk = &k0;\n            curve_pts\n                .then(move |pts| eval_dy_prf::<_, PRF_CHUNK>(eval_ctx, record_id, kk, pts))\n        }),\n    )\n    .try_flatten_iters();\n')]),
+    dict(prop="C01", name="prf-key-cancelled-to-zero", expect=['WIRE-prf', 'eval(ctx'],
+         edits=[dict(file='ipa-core/src/protocol/hybrid/oprf.rs', find='    .await?;\n\n    let prf_key = gen_prf_key(&ctx.narrow(&HybridStep::PrfKeyGen));\n\n    let validator = ctx\n        .narrow(&HybridStep::EvalPrf)\n', replace='    .await?;\n\n    let prf_key = gen_prf_key(&ctx.narrow(&HybridStep::PrfKeyGen));\n    let zero_key = prf_key.clone() - &prf_key;\n\n    let validator = ctx\n        .narrow(&HybridStep::EvalPrf)\n'), dict(file='ipa-core/src/protocol/hybrid/oprf.rs', find='        stream::iter(curve_pts).enumerate().map(|(i, curve_pts)| {\n            let record_id = RecordId::from(i);\n            let eval_ctx = eval_ctx.clone();\n            let prf_key = &prf_key;\n            curve_pts\n                .then(move |pts| eval_dy_prf::<_, PRF_CHUNK>(eval_ctx, record_id, prf_key, pts))\n        }),\n', replace='        stream::iter(curve_pts).enumerate().map(|(i, curve_pts)| {\n            let record_id = RecordId::from(i);\n            let eval_ctx = eval_ctx.clone();\n            let prf_key = &zero_key;\n            curve_pts\n                .then(move |pts| eval_dy_prf::<_, PRF_CHUNK>(eval_ctx, record_id, prf_key, pts))\n        }),\n')]),
+]
+
+
 VARIANTS += [
     dict(prop="C03", name="hash-skips-first-element", expect=['HASH-cover', 'iterates-its-whole-argument'],
          edits=[dict(file="ipa-core/src/helpers/hashing.rs", find='    for x in input {\n        is_empty = false;\n        x.serialize(&mut buf);\n        sha.update(&buf);\n    }', replace='    for x in input.into_iter().skip(1) {\n        is_empty = false;\n        x.serialize(&mut buf);\n        sha.update(&buf);\n    }')]),
